@@ -176,13 +176,102 @@ def _priv(obj, cls, name, fallback):
     return fallback() if v is None else v
 
 
+#: elements of guard zone on either side of a guarded array
+GUARD = 64
+
+
+def _same_result(a, b) -> bool:
+    if isinstance(a, np.ndarray) or isinstance(b, np.ndarray):
+        return bool(np.array_equal(a, b, equal_nan=(
+            getattr(a, "dtype", np.dtype(int)).kind == "f")))
+    if isinstance(a, float) and isinstance(b, float):
+        return a == b or (a != a and b != b)
+    return a == b
+
+
 class Runner:
+    """Drives one kernel call.
+
+    Engine `py`: the arrays are IndexSpy views (every subscript is judged).
+    Other engines: every plain contiguous array handed over through
+    :meth:`w` is placed between two guard zones; the call is made twice with
+    the zones filled with 0 and then with 1. A guard zone that changed is a
+    write outside the array; a return value or final array content that
+    differs between the two runs is a read outside the array that reached
+    the result (this also sees accesses that numba's bounds checking does
+    not, e.g. through `.flat`)."""
+
     def __init__(self, ctx):
         self.ctx = ctx
         self.py = ctx.engine == "py"
+        self.pattern = None
+        self.guards: list = []
 
     def w(self, a, label):
-        return isp.spy(a, label) if self.py else a
+        if self.py:
+            return isp.spy(a, label)
+        if self.pattern is None or not isinstance(a, np.ndarray) \
+                or a.size == 0 or a.dtype.kind not in "iuf" \
+                or not a.flags.c_contiguous:
+            return a
+        if type(a) is not np.ndarray and label != "dist":
+            return a
+        buf = np.full(a.size + 2 * GUARD, self.pattern, a.dtype)
+        view = buf[GUARD:GUARD + a.size].reshape(a.shape)
+        view[...] = a
+        self.guards.append((a, view, buf, label))
+        return view
+
+    def _guarded(self, kernel, input_class, fn):
+        """Run fn with guard zones 0 and 1; -> False if fn handed nothing
+        over through w() (it was run once, unguarded, then), else True."""
+        ctx = self.ctx
+        outs = []
+        for pat in (0, 1):
+            self.pattern, self.guards = pat, []
+            try:
+                res = fn()
+            finally:
+                self.pattern = None
+            guards, self.guards = self.guards, []
+            if not guards:
+                return False        # nothing was handed over through w()
+            ctx.count("guard_zone_calls")
+            for _orig, _view, buf, label in guards:
+                if (buf[:GUARD] != pat).any() or (buf[-GUARD:] != pat).any():
+                    ctx.violation(
+                        f"out-of-bounds:{kernel}",
+                        f"{kernel} ({input_class}) changed the guard zone "
+                        f"around its argument {label!r} (engine "
+                        f"{ctx.engine})",
+                        {"kind": "extreme", "kernel": kernel,
+                         "input_class": input_class})
+                    return True
+            outs.append((res, [(g[3], g[1].copy()) for g in guards], guards))
+        (r0, f0, _g0), (r1, f1, g1) = outs
+        differs = None
+        if not _same_result(r0, r1):
+            differs = f"returns {r0!r} / {r1!r}"
+        elif len(f0) != len(f1):
+            differs = "hands over another number of arrays"
+        else:
+            for (la, a), (_lb, b) in zip(f0, f1):
+                if not _same_result(a, b):
+                    differs = f"leaves other contents in {la!r}"
+                    break
+        if differs:
+            ctx.violation(
+                f"out-of-bounds:{kernel}",
+                f"{kernel} ({input_class}) {differs[:200]} depending on "
+                f"whether the memory next to its arrays holds 0 or 1 "
+                f"(engine {ctx.engine}): it reads outside an array",
+                {"kind": "extreme", "kernel": kernel,
+                 "input_class": input_class})
+            return True
+        for orig, view, _buf, label in g1:
+            if orig.flags.writeable and type(orig) is np.ndarray:
+                np.copyto(orig, view)
+        return True
 
     def call(self, kernel, input_class, fn, public=None):
         ctx = self.ctx
@@ -192,7 +281,10 @@ class Runner:
         ctx.count(f"kernel[{kernel}]")
         try:
             try:
-                fn()
+                if self.py:
+                    fn()
+                else:
+                    self._guarded(kernel, input_class, fn)
             except TypeError as e:
                 # a private kernel called with the argument list it has on
                 # the pinned tree: if another tree gives it another private
@@ -431,8 +523,10 @@ def tsp_qap_corpus(r: Runner, rng):
                 r.w(inst, "instance"), r.w(x, "x")))
             y0 = C05 and sum(m[t[k - 1]][t[k]] for k in range(n))
             for i in range(n - 1):
-                for j in range(i + 1, n - 1):
-                    if i == 0 and j == n - 2:
+                # (segments ending at the last position included: the
+                # kernels wrap the successor index)
+                for j in range(i + 1, n):
+                    if i == 0 and j >= n - 2:
                         continue
                     x[:] = t
                     r.call("rev_if_not_worse", f"n={n},i={i},j={j}",
